@@ -50,10 +50,18 @@ func (c *vpKConn) Read(b []byte) (int, error) {
 	if c.rpos >= len(c.reply) {
 		return 0, io.EOF
 	}
-	n := copy(b, c.reply[c.rpos:])
+	avail := c.reply[c.rpos:]
+	if c.proto == "tcp" && c.rpos == 0 && len(avail) > 1 && vpSplitReplies {
+		// TCP is a byte stream: the first read may return any non-empty prefix of the reply
+		avail = avail[:vpIntRange("first-read-of-reply-"+c.host, 1, len(avail))]
+	}
+	n := copy(b, avail)
 	c.rpos += n
 	return n, nil
 }
+
+// vpSplitReplies: a TCP KDC's reply may arrive in two reads (set by the relay harness).
+var vpSplitReplies bool
 func (c *vpKConn) Write(b []byte) (int, error) {
 	if c.werr {
 		return 0, errors.New("vp: write failed")
@@ -91,6 +99,7 @@ func vpResetK() {
 	vpMarshaled, vpMarshalN = nil, 0
 	vpAllDialsFail = false
 	vpRealmCheck, vpAlwaysReply = false, false
+	vpSplitReplies = false
 }
 
 // GetKDCs contract (gokrb5 randServOrder): error for an unknown realm, else (n, map{1..n -> host}).
@@ -304,11 +313,12 @@ func vpWantReply(c *vpKConn) []byte {
 
 //vp:property C20 C10
 //vp:set kmax 2 3
-//vp:bounds 1..kmax UDP and 1..kmax TCP KDCs; each KDC independently: refuses the connection / write fails / stays silent (read error) / replies 3 arbitrary bytes; embedded message: 4-byte prefix + 2 symbolic bytes, or any 0..4 bytes (shorter than the prefix); POST with valid DER, realm "R"
+//vp:bounds 1..kmax UDP and 1..kmax TCP KDCs; each KDC independently: refuses the connection / write fails / stays silent (read error) / replies 3 arbitrary bytes (a TCP reply may arrive in two reads, split anywhere); embedded message: 4-byte prefix + 2 symbolic bytes, or any 0..4 bytes (shorter than the prefix); POST with valid DER, realm "R"
 //vp:assume every started reader eventually sends (the 5 s deadline); goroutines run when the handler blocks (no interleaving exploration)
 //vp:reach replied noreply
 func VP_C20_relay() {
 	vpResetK()
+	vpSplitReplies = true
 	vpUnknown = false
 	vpUDPn = vpIntRange("udp", 1, vpParam("kmax"))
 	vpTCPn = vpIntRange("tcp", 1, vpParam("kmax"))
